@@ -71,11 +71,12 @@ HandleCalls(s) ==
             [C0 EXCEPT !.op = "ftruncate", !.h = h, !.n = 0], [C0 EXCEPT !.op = "fchmod", !.h = h, !.perm = 511],
             [C0 EXCEPT !.op = "fchown", !.h = h, !.uid = 1001, !.gid = 1001], [C0 EXCEPT !.op = "fchown", !.h = h, !.uid = -1, !.gid = 1001],
             [C0 EXCEPT !.op = "fchown", !.h = h, !.uid = 1001, !.gid = -1], [C0 EXCEPT !.op = "fchown", !.h = h, !.uid = -1, !.gid = -1],
-            [C0 EXCEPT !.op = "fsync", !.h = h],
+            [C0 EXCEPT !.op = "fsync", !.h = h], [C0 EXCEPT !.op = "fchdir", !.h = h],
             [C0 EXCEPT !.op = "seek", !.h = h, !.off = 1, !.wh = 0], [C0 EXCEPT !.op = "fstat", !.h = h],
             [C0 EXCEPT !.op = "freaddirnames", !.h = h, !.n = -1], [C0 EXCEPT !.op = "close", !.h = h]}
            : h \in DOMAIN s.h}
 
+Impl == IF "VERIF_IMPL" \in DOMAIN IOEnv THEN IOEnv.VERIF_IMPL ELSE "memfs"
 P1x == {AbsP(x) : x \in P1}
 WrapCalls(s) ==
     {[C0 EXCEPT !.op = "mkdir", !.p = p, !.perm = 493] : p \in Paths}
@@ -92,6 +93,12 @@ WrapCalls(s) ==
     \cup {[C0 EXCEPT !.op = "truncate", !.p = p, !.n = 0] : p \in Paths}
     \cup {[C0 EXCEPT !.op = "chmod", !.p = p, !.perm = 511] : p \in Paths}
     \cup {[C0 EXCEPT !.op = "chtimes", !.p = p, !.n = 7] : p \in Paths}
+    \cup {[C0 EXCEPT !.op = o, !.p = p] : o \in {"readlink", "evalsymlinks"}, p \in P1x}
+    \cup {[C0 EXCEPT !.op = "getwd"]}
+    \cup {[C0 EXCEPT !.op = "abs", !.p = p] : p \in {RelP(<<"a">>), RelP(<<"..", "b">>), AbsP(<<"w", "..", "a">>)}}
+    \* SetUser / SetUserByName on the file system (bases with an identity manager; not with the read-only failure function)
+    \cup (IF Impl = "memfs" /\ Kind # "failro"
+          THEN {[C0 EXCEPT !.op = o, !.uid = u, !.gid = u] : o \in {"vsetuser", "vsetuserbyname"}, u \in {0, 1001}} ELSE {})
     \cup {[C0 EXCEPT !.op = o, !.p = p, !.uid = u, !.gid = g] : o \in {"chown", "lchown"}, p \in Paths, u \in {1001, -1}, g \in {1001, -1}}
     \cup {[C0 EXCEPT !.op = o, !.p = p, !.q = RelP(<<"a">>), !.data = <<3>>] : o \in {"subwrite", "submkdir"}, p \in Paths \cup {WorkP, AbsP(<<>>)}}
     \* enumeration through the wrapper (C14); FailFS's Glob is a composite whose consultations are not specified
@@ -101,7 +108,6 @@ WrapCalls(s) ==
     \cup {[C0 EXCEPT !.op = o, !.p = p] : o \in {"exists", "isdir"} \cup (IF Kind = "failfs" THEN {} ELSE {"isempty"}), p \in P1x}
     \cup HandleCalls(s)
 
-Impl == IF "VERIF_IMPL" \in DOMAIN IOEnv THEN IOEnv.VERIF_IMPL ELSE "memfs"
 WKind == IF Kind = "rofs-sym" THEN "rofs" ELSE Kind
 
 \* C11: views at /w/B (BpBase tree), at / and at /w; calls as for BasePathFS plus the per-view setters
@@ -137,7 +143,9 @@ ParentCalls ==
 PlanFns == {"OpenFile", "FileWrite", "FileClose", "FileRead", "FileStat", "FileReadDir", "ReadFile", "ReadDir", "Mkdir",
             "MkdirTemp", "MkdirAll", "Remove", "RemoveAll", "Rename", "Link", "Symlink", "Truncate", "Chmod", "Chtimes",
             "Stat", "Lstat", "Chdir", "CreateTemp", "FileSeek", "FileTruncate", "FileSync", "FileChmod", "FileWriteAt",
-            "FileReadAt", "FileReaddirnames"}
+            "FileReadAt", "FileReaddirnames",
+            "Chown", "Lchown", "WalkDir", "Sub", "FileChown", "FileChdir", "Readlink", "EvalSymlinks", "Getwd",
+            "Abs", "SetUser", "SetUserByName"}
 Plans == IF WKind = "failfs" THEN {NoPlan} \cup {[fn |-> f, k |-> k] : f \in PlanFns, k \in 1..2} ELSE {NoPlan}
 RECURSIVE JoinSlash(_)
 JoinSlash(ps) == IF ps = <<>> THEN "" ELSE "/" \o Head(ps) \o JoinSlash(Tail(ps))
@@ -228,6 +236,8 @@ Call ==
                /\ LET tgt == IF c.v = 8 THEN ToBaseD(wx.dir2, wx.vcwd2, c.p).parts ELSE IF c.v = 9 THEN c.p.parts ELSE ToBaseD(wx.dir, wx.vcwd, c.p).parts
                       IsPre(a, b) == Len(a) <= Len(b) /\ SubSeq(b, 1, Len(a)) = a IN
                   IsPre(tgt, wx.dir \o wx.vcwd) \/ IsPre(tgt, wx.dir2 \o wx.vcwd2))
+          \* (becoming somebody else is the last call of a sequence: what a non-administrator may do is C03's subject)
+          /\ ((c.op \in {"vsetuser", "vsetuserbyname"} /\ c.uid # 0) => Len(wh) = WrapLen - 1)
           \* temporary names are random digits in the implementation and "~k" in the specification: where they fall
           \* in a lexical enumeration is not comparable, so ordered enumerations are not issued once one exists
           /\ ~(c.op \in {"walk", "glob"} /\ st.tmpn > 0)
@@ -246,7 +256,7 @@ Call ==
           /\ ((w # "sub" /\ wx.plan.fn # "none") => (c.op = "open" \/ \E i \in DOMAIN o.cons : o.cons[i] = wx.plan.fn))
           /\ st' = o.st /\ wh' = Append(wh, c) /\ last' = [call |-> c, res |-> o.res] /\ wx' = o.x /\ UNCHANGED <<hist, w>>
           /\ Emit([hist |-> hist, wrap |-> WrapName, wh |-> wh, call |-> c, res |-> o.res, pre |-> Proj(st),
-                   post |-> Proj(o.st), cwd |-> CwdPath(o.st), cons |-> o.cons, hs |-> HObs(o.st), um |-> o.st.umask])
+                   post |-> Proj(o.st), cwd |-> CwdPath(o.st), cons |-> o.cons, hs |-> HObs(o.st), um |-> o.st.umask, uid |-> o.st.uid])
           /\ \A i \in {"memfs", "orefafs"} :
                \A a \in {y \in WOutcomes(w, i, st, c, wx) : y.kf # "" /\ y.cons = o.cons} :
                   Emit([t |-> "alt", hist |-> hist, wrap |-> WrapName, wh |-> wh, call |-> c,
